@@ -72,6 +72,11 @@ def parse_cex(message, fname):
         return None
 
 
+def _norm(s):
+    import re
+    return re.sub(r"0x[0-9a-f]{6,}", "0x?", s)
+
+
 def _functions_entered(fn, kwargs):
     seen = set()
 
@@ -94,6 +99,8 @@ def cmd_check(a):
         _emit(err); return
     from vf import ob as obmod, env, chplugin
     o = _find(mod, a.fn)
+    if getattr(mod, "META", {}).get("symstr_format") == "symbolic":
+        chplugin.SYMSTR_CONST = False
     shard = json.loads(a.shard)
     obmod.set_shard(shard)
     out = {"module": a.module, "fn": a.fn, "shard": shard, "twin": env.TWIN}
@@ -109,12 +116,12 @@ def cmd_check(a):
                 env.OBS_ON = True; del env.OBS[:]
                 r1, f = _functions_entered(o.fn, dict(s))
                 funcs = sorted(set(funcs) | set(f))
-                obs1 = repr(env.OBS)
+                obs1 = _norm(repr(env.OBS))
                 del env.OBS[:]
                 with standalone_statespace:
                     r2 = o.fn(**dict(s))
                     with NoTracing():
-                        obs2 = repr(env.OBS)
+                        obs2 = _norm(repr(env.OBS))
                 st.append({"sample": s, "plain": bool(r1), "traced": bool(r2), "equal": bool(r1) == bool(r2) and obs1 == obs2})
                 if obs1 != obs2:
                     st[-1]["plain_obs"] = obs1[:2000]; st[-1]["traced_obs"] = obs2[:2000]
